@@ -29,3 +29,15 @@ Example C17_example :
   country_spec 0x3C0000 = "DE"%string /\ country_spec 0x3FFFFF = "DE"%string /\
   country_spec 0xD09000 = "??"%string.
 Proof. vm_compute. repeat split. Qed.
+
+(** ---- over all histories: the country shown is the country of the row's address ---- *)
+From SQ Require Import Base Table Update RowIdentity CountryProof.
+
+
+(** in every table reachable from the empty one by any byte stream and option set, the country field of each row is icao_to_country of its key (no update function ever writes it), which by C17_country is the Annex 10 block code *)
+Theorem C17_reachable_rows : forall (o : opts) (now : Z) (bs : list N) (t' : table), read_lines o now [] bs = Ok t' -> forall (k : N) (r : row), lookup t' k = Some r -> icao r = k /\ reg r = icao_to_country k /\ k <> 0 /\ k < 16777216.
+Proof. exact reachable_row_ident. Qed.
+Check C17_reachable_rows : forall (o : opts) (now : Z) (bs : list N) (t' : table), read_lines o now [] bs = Ok t' -> forall (k : N) (r : row), lookup t' k = Some r -> icao r = k /\ reg r = icao_to_country k /\ k <> 0 /\ k < 16777216.
+Print Assumptions C17_reachable_rows.
+
+
